@@ -4,6 +4,8 @@ pub mod gen;
 pub mod oracle;
 pub mod props;
 pub mod merge;
+pub mod selftest;
+pub mod cli;
 
 use engine::{Ctx, Tier};
 
@@ -115,6 +117,12 @@ fn main() {
             }
             run(&mut cx);
             std::process::exit(cx.finish(rule));
+        }
+        "selftest" => {
+            std::env::set_var("VH_EVIDENCE_OUT", format!("{}/out/selftest.json", engine::verif_root()));
+            let mut cx = Ctx::new("SELF", Tier::Quick);
+            selftest::run(&mut cx);
+            std::process::exit(cx.finish("self"));
         }
         "merge" => {
             if args.len() < 5 {
